@@ -458,6 +458,60 @@ def reportArgs (s : Sig) (fields : KW) (va : Option (List V)) : List (Name × Re
 
 def symInitArgs (F : Functor) : List (Name × Reported) := reportArgs F.sig F.bound F.va
 
+/-! ### Late binding on the functor object: rebind / setattr / del before the call -/
+
+def setAdd (l : List Name) (k : Name) : List Name := if l.contains k then l else l ++ [k]
+def setDiscard (l : List Name) (k : Name) : List Name := l.filter (· != k)
+
+/-- functor.py `_on_change`, the default / non-default bookkeeping for one updated key:
+`isDefault` = `update.field.default_value == update.new_value`, `hasDefault` = the field has one. -/
+def Functor.noteChange (F : Functor) (k : Name) (isDefault hasDefault : Bool) : Functor :=
+  if isDefault then
+    { F with defaultArgs := if hasDefault then setAdd F.defaultArgs k else F.defaultArgs,
+             nonDefaultArgs := setDiscard F.nonDefaultArgs k }
+  else
+    { F with defaultArgs := setDiscard F.defaultArgs k, nonDefaultArgs := setAdd F.nonDefaultArgs k }
+
+/-- `f.rebind(k=v)` / `f.k = v` for a named parameter or (with `**kwargs`) a wildcard keyword:
+the symbolic attribute is written and `_on_change` records the key as specified. -/
+def Functor.setArg (F : Functor) (k : Name) (v : V) : Functor :=
+  let dflt := (F.sig.params.find? (fun p => p.name == k)).bind (·.dflt)
+  -- writing the value the attribute already has (bound or default) is not a change: no `_on_change`
+  if (kget F.bound k).orElse (fun _ => dflt) == some v then F
+  else ({ F with bound := kset F.bound k v }).noteChange k (dflt == some v) dflt.isSome
+
+def Functor.rebind (F : Functor) : KW → Functor
+  | [] => F
+  | (k, v) :: r => (F.setArg k v).rebind r
+
+/-- `f.rebind(args=[…])` / `f.args = […]`: the variadic positional list is (re)bound late. -/
+def Functor.setVarargs (F : Functor) (xs : List V) : Functor :=
+  match F.sig.varargs with
+  | none => F
+  | some vn =>
+    -- assigning a list is always a change (a new symbolic list object), also an equal one
+    ({ F with va := some xs }).noteChange vn xs.isEmpty true
+
+/-- `del f.k` (functor.py `__delattr__`) for a named parameter or a wildcard keyword: back to the
+default (or unbound); the key is no longer specified. -/
+def Functor.delArg (F : Functor) (k : Name) : Functor :=
+  let hasD := ((F.sig.params.find? (fun p => p.name == k)).bind (·.dflt)).isSome
+  { F with bound := kdel F.bound k,
+           defaultArgs := if hasD then setAdd F.defaultArgs k else setDiscard F.defaultArgs k,
+           nonDefaultArgs := setDiscard F.nonDefaultArgs k }
+
+/-- One late-binding operation. -/
+inductive LateOp where
+  | rebind (upd : KW)
+  | setVarargs (xs : List V)
+  | del (k : Name)
+  deriving Repr
+
+def Functor.late (F : Functor) : LateOp → Functor
+  | .rebind upd => F.rebind upd
+  | .setVarargs xs => F.setVarargs xs
+  | .del k => F.delArg k
+
 /-! ### Clone and JSON round trip of a functor -/
 
 /-- `Functor._sym_clone` (functor.py:249-259): the symbolic attributes are copied and the bound-arg
@@ -493,15 +547,28 @@ def mergeNamed (n1 n2 : Named) : Named :=
 are surplus positionals the positional parameters have to be passed positionally. -/
 def toCall (s : Sig) (n : Named) : Call :=
   if n.va.isEmpty then ⟨[], n.named ++ n.extra⟩
-  else ⟨(s.pos.filterMap fun p => kget n.named p.name) ++ n.va,
-        n.named.filter (fun p => !(s.posNames.contains p.1)) ++ n.extra⟩
+  else if s.pos.all (fun p => ((kget n.named p.name).orElse fun _ => p.dflt).isSome) then
+    -- an unbound positional parameter takes its default explicitly (nothing else can precede `*args`)
+    ⟨(s.pos.filterMap fun p => (kget n.named p.name).orElse fun _ => p.dflt) ++ n.va,
+     n.named.filter (fun p => !(s.posNames.contains p.1)) ++ n.extra⟩
+  else
+    -- a required positional parameter is unbound: no direct call can supply the surplus
+    -- positionals; the keyword form reports the missing argument
+    ⟨[], n.named ++ n.extra⟩
 
 /-- `toCall` for a signature whose first `npo` positional parameters are positional-only: those
 are passed by position also when there are no surplus positionals. -/
 def toCallPO (npo : Nat) (s : Sig) (n : Named) : Call :=
   if n.va.isEmpty then
-    ⟨(s.pos.take npo).filterMap (fun p => kget n.named p.name),
-     n.named.filter (fun p => !((s.posNames.take npo).contains p.1)) ++ n.extra⟩
+    let ps := s.pos.take npo
+    -- the positional-only parameters up to the last supplied one go by position; an unsupplied one
+    -- in between takes its default explicitly
+    let k := ps.length - (ps.reverse.takeWhile fun p => (kget n.named p.name).isNone).length
+    let pre := ps.take k
+    if pre.all (fun p => ((kget n.named p.name).orElse fun _ => p.dflt).isSome) then
+      ⟨pre.filterMap (fun p => (kget n.named p.name).orElse fun _ => p.dflt),
+       n.named.filter (fun p => !((pre.map (·.name)).contains p.1)) ++ n.extra⟩
+    else ⟨[], n.named ++ n.extra⟩
   else toCall s n
 
 /-- Do the two argument sets overlap? (Then the functor demands `override_args`.) -/
@@ -522,6 +589,35 @@ def effective (s : Sig) (c1 c2 : Call) (ignore : Bool) : Except BindErr Call :=
 end Pg.C18
 
 namespace Pg.C18
+/-- The late-binding operations on the level of the supplied arguments (the spec side). -/
+def Named.setArg (s : Sig) (n : Named) (k : Name) (v : V) : Named :=
+  if s.names.contains k then
+    let dflt := (s.params.find? (fun p => p.name == k)).bind (·.dflt)
+    -- writing the value a parameter already has (supplied or default) changes nothing
+    if (kget n.named k).orElse (fun _ => dflt) == some v then n
+    else { n with named := kset n.named k v }
+  else { n with extra := kset n.extra k v }
+
+def Named.rebind (s : Sig) (n : Named) : KW → Named
+  | [] => n
+  | (k, v) :: r => (Named.setArg s n k v).rebind s r
+
+def Named.late (s : Sig) (n : Named) : LateOp → Named
+  | .rebind upd => n.rebind s upd
+  | .setVarargs xs => { n with va := xs }
+  | .del k => ⟨kdel n.named k, n.va, kdel n.extra k⟩
+
+/-- `effectivePO` for a functor that was re-bound between construction and call. -/
+def effectiveLate (npo : Nat) (s : Sig) (c1 : Call) (lates : List LateOp) (c2 : Call) (ignore : Bool) :
+    Except BindErr (Call × Bool × Bool) :=
+  match nameArgs s c1 with
+  | .error e => .error e
+  | .ok n1 =>
+    let n1' := lates.foldl (Named.late s) n1
+    match nameArgs s (if ignore then dropExtras s c2 else c2) with
+    | .error e => .error e
+    | .ok n2 => .ok (toCallPO npo s (mergeNamed n1' n2), conflicts n1' n2, vaConflict n1' n2)
+
 def effectivePO (npo : Nat) (s : Sig) (c1 c2 : Call) (ignore : Bool) : Except BindErr Call :=
   match nameArgs s c1 with
   | .error e => .error e
@@ -529,4 +625,49 @@ def effectivePO (npo : Nat) (s : Sig) (c1 c2 : Call) (ignore : Bool) : Except Bi
     match nameArgs s (if ignore then dropExtras s c2 else c2) with
     | .error e => .error e
     | .ok n2 => .ok (toCallPO npo s (mergeNamed n1 n2))
+end Pg.C18
+
+namespace Pg.C18
+
+/-! ### Call-time member overrides of class-based functors: per object, per thread
+
+While `A(x=3)` executes, `A._call` reads `self.x` through `Functor._sym_inferred`, which consults
+the overrides of THIS invocation first (functor.py: `self._tls`, one `threading.local` per functor
+object) and the bound attributes otherwise. The store below lists the active invocations
+(innermost first); an entry belongs to one functor object and one thread. -/
+
+structure Activation where
+  obj : Nat
+  thread : Nat
+  overrides : KW
+  deriving Repr, DecidableEq
+
+abbrev OvStore := List Activation
+
+/-- `_apply_call_time_overrides_to_members`: entering an invocation. -/
+def OvStore.enter (st : OvStore) (o t : Nat) (kw : KW) : OvStore := ⟨o, t, kw⟩ :: st
+
+/-- Leaving it (the `finally` branch restores the previous entry of that object). -/
+def OvStore.exit (st : OvStore) : OvStore := st.tail
+
+/-- `obj.<k>` read by thread `t`: the innermost active invocation of `obj` in `t`, else the bound
+attribute. -/
+def resolve (attrs : Nat → KW) (st : OvStore) (o t : Nat) (k : Name) : Option V :=
+  match st.find? (fun a => a.obj == o && a.thread == t) with
+  | some a =>
+    match kget a.overrides k with
+    | some v => some v
+    | none => kget (attrs o) k
+  | none => kget (attrs o) k
+
+/-- The seeded regression: ONE `threading.local` shared by all functor objects — the innermost
+active invocation of the thread wins, whatever object it belongs to. -/
+def resolveSharedTLS (attrs : Nat → KW) (st : OvStore) (o t : Nat) (k : Name) : Option V :=
+  match st.find? (fun a => a.thread == t) with
+  | some a =>
+    match kget a.overrides k with
+    | some v => some v
+    | none => kget (attrs o) k
+  | none => kget (attrs o) k
+
 end Pg.C18
